@@ -520,16 +520,32 @@ func c16Check(c C16Case, cx *h.Ctx) *h.Failure {
 			{"Difference(hull,g)", func() (geom.Geometry, error) { return geom.Difference(g.ConvexHull(), g) }},
 			{"SymmetricDifference(g,envelope)", func() (geom.Geometry, error) { return geom.SymmetricDifference(g, g.Envelope().AsGeometry()) }},
 			// an empty operand of the same / another coordinate type in either position (short-cut paths)
-			{"Difference(g,empty same type)", func() (geom.Geometry, error) { return geom.Difference(g, geom.Polygon{}.ForceCoordinatesType(ct).AsGeometry()) }},
+			{"Difference(g,empty same type)", func() (geom.Geometry, error) {
+				return geom.Difference(g, geom.Polygon{}.ForceCoordinatesType(ct).AsGeometry())
+			}},
 			{"Difference(g,empty XY)", func() (geom.Geometry, error) { return geom.Difference(g, geom.Point{}.AsGeometry()) }},
-			{"Difference(empty,g)", func() (geom.Geometry, error) { return geom.Difference(geom.LineString{}.ForceCoordinatesType(ct).AsGeometry(), g) }},
-			{"Union(g,empty)", func() (geom.Geometry, error) { return geom.Union(g, geom.MultiPoint{}.ForceCoordinatesType(ct).AsGeometry()) }},
-			{"Union(empty,g)", func() (geom.Geometry, error) { return geom.Union(geom.GeometryCollection{}.ForceCoordinatesType(ct).AsGeometry(), g) }},
-			{"SymmetricDifference(g,empty)", func() (geom.Geometry, error) { return geom.SymmetricDifference(g, geom.MultiPolygon{}.ForceCoordinatesType(ct).AsGeometry()) }},
+			{"Difference(empty,g)", func() (geom.Geometry, error) {
+				return geom.Difference(geom.LineString{}.ForceCoordinatesType(ct).AsGeometry(), g)
+			}},
+			{"Union(g,empty)", func() (geom.Geometry, error) {
+				return geom.Union(g, geom.MultiPoint{}.ForceCoordinatesType(ct).AsGeometry())
+			}},
+			{"Union(empty,g)", func() (geom.Geometry, error) {
+				return geom.Union(geom.GeometryCollection{}.ForceCoordinatesType(ct).AsGeometry(), g)
+			}},
+			{"SymmetricDifference(g,empty)", func() (geom.Geometry, error) {
+				return geom.SymmetricDifference(g, geom.MultiPolygon{}.ForceCoordinatesType(ct).AsGeometry())
+			}},
 			{"SymmetricDifference(empty,g)", func() (geom.Geometry, error) { return geom.SymmetricDifference(geom.Geometry{}, g) }},
-			{"Intersection(g,empty)", func() (geom.Geometry, error) { return geom.Intersection(g, geom.MultiLineString{}.ForceCoordinatesType(ct).AsGeometry()) }},
-			{"Intersection(empty,g)", func() (geom.Geometry, error) { return geom.Intersection(geom.Point{}.ForceCoordinatesType(ct).AsGeometry(), g) }},
-			{"UnionMany(g,empty,g)", func() (geom.Geometry, error) { return geom.UnionMany([]geom.Geometry{g, geom.Polygon{}.ForceCoordinatesType(ct).AsGeometry(), g}) }}} {
+			{"Intersection(g,empty)", func() (geom.Geometry, error) {
+				return geom.Intersection(g, geom.MultiLineString{}.ForceCoordinatesType(ct).AsGeometry())
+			}},
+			{"Intersection(empty,g)", func() (geom.Geometry, error) {
+				return geom.Intersection(geom.Point{}.ForceCoordinatesType(ct).AsGeometry(), g)
+			}},
+			{"UnionMany(g,empty,g)", func() (geom.Geometry, error) {
+				return geom.UnionMany([]geom.Geometry{g, geom.Polygon{}.ForceCoordinatesType(ct).AsGeometry(), g})
+			}}} {
 			if r, err := op.fn(); err == nil {
 				xyOnly = append(xyOnly, struct {
 					name string
